@@ -11,7 +11,6 @@ structure SessInv (ss : List Sess) : Prop where
   heads : ∀ s ∈ ss, s.pkt.data.head? = some []
   nodup : (ss.map Sess.key).Nodup
   keyed : ∀ s ∈ ss, ∀ b ∈ s.withheld, dcidKey b = s.key
-  cacheable : ∀ s ∈ ss, s.key ≠ []
 
 def AllEmpty (ss : List Sess) : Prop := ∀ s ∈ ss, s.withheld = []
 
@@ -145,17 +144,17 @@ theorem withheld_nil_of_short (s : Sess) (hl : ¬ 1 < s.pkt.data.length) :
     | nil => rfl
     | cons b tl' => simp at hl
 
-theorem takeHeld_spec (ss : List Sess) (hh : ∀ s ∈ ss, s.pkt.data.head? = some []) (hc : ∀ s ∈ ss, s.key ≠ []) :
+theorem takeHeld_spec (ss : List Sess) (hh : ∀ s ∈ ss, s.pkt.data.head? = some []) :
     (takeHeld ss).1 = ss.flatMap Sess.withheld ∧ (takeHeld ss).2.map Sess.key = ss.map Sess.key ∧
       AllEmpty (takeHeld ss).2 ∧ ∀ s ∈ (takeHeld ss).2, s.pkt.data.head? = some [] := by
   induction ss with
   | nil =>
     refine ⟨rfl, rfl, ?_, ?_⟩ <;> intro s hs <;> simp [takeHeld] at hs
   | cons s ss ih =>
-    obtain ⟨h1, h2, h3, h4⟩ := ih (fun t ht => hh t (by simp [ht])) (fun t ht => hc t (by simp [ht]))
+    obtain ⟨h1, h2, h3, h4⟩ := ih (fun t ht => hh t (by simp [ht]))
     simp only [takeHeld]
     by_cases hl : 1 < s.pkt.data.length
-    · rw [if_pos ⟨hc s (by simp), hl⟩]
+    · rw [if_pos hl]
       refine ⟨by simp [h1], by simp [h2, release_key], ?_, ?_⟩
       · intro t ht
         simp only [List.mem_cons] at ht
@@ -167,7 +166,7 @@ theorem takeHeld_spec (ss : List Sess) (hh : ∀ s ∈ ss, s.pkt.data.head? = so
         rcases ht with rfl | ht
         · rfl
         · exact h4 t ht
-    · rw [if_neg (fun h => hl h.2)]
+    · rw [if_neg hl]
       have hw := withheld_nil_of_short s hl
       refine ⟨by simp [h1, hw], by simp [h2], ?_, ?_⟩
       · intro t ht
@@ -183,14 +182,9 @@ theorem takeHeld_spec (ss : List Sess) (hh : ∀ s ∈ ss, s.pkt.data.head? = so
 
 theorem sessInv_of_allEmpty (ss ss' : List Sess) (hI : SessInv ss) (hk : ss'.map Sess.key = ss.map Sess.key)
     (he : AllEmpty ss') (hh : ∀ s ∈ ss', s.pkt.data.head? = some []) : SessInv ss' := by
-  refine ⟨hh, by rw [hk]; exact hI.nodup, ?_, ?_⟩
-  · intro s hs b hb
-    rw [he s hs] at hb; cases hb
-  · intro s hs
-    have : s.key ∈ ss'.map Sess.key := List.mem_map_of_mem hs
-    rw [hk, List.mem_map] at this
-    obtain ⟨t, ht, hkt⟩ := this
-    rw [← hkt]; exact hI.cacheable t ht
+  refine ⟨hh, by rw [hk]; exact hI.nodup, ?_⟩
+  intro s hs b hb
+  rw [he s hs] at hb; cases hb
 
 /-- From `afterSniffing` on: everything the family holds goes out (or is lost with the dial), ahead
 of the current datagram; afterwards no session holds anything. -/
@@ -199,7 +193,7 @@ theorem forward_spec (f : Fam) (pre : List Bytes) (dom : Bytes) (x : Dg) (hs : B
     SessInv (f.forward pre dom x hs).1.sessions ∧ AllEmpty (f.forward pre dom x hs).1.sessions ∧
       (f.forward pre dom x hs).2.written ++ (f.forward pre dom x hs).2.dropped = pre ++ f.held ++ [x.data] ∧
       ((f.forward pre dom x hs).1.ue.isSome = true ∨ (f.forward pre dom x hs).2.written = []) := by
-  obtain ⟨h1, h2, h3, h4⟩ := takeHeld_spec f.sessions hI.heads hI.cacheable
+  obtain ⟨h1, h2, h3, h4⟩ := takeHeld_spec f.sessions hI.heads
   have hr : (if hs = true then takeHeld f.sessions else ([], f.sessions)) = takeHeld f.sessions := by
     rcases hhs with h | h
     · rw [if_pos h]
@@ -218,9 +212,9 @@ theorem forward_spec (f : Fam) (pre : List Bytes) (dom : Bytes) (x : Dg) (hs : B
       exact ⟨hS, h3, by simp [h1, Fam.held], Or.inl rfl⟩
 
 theorem sessInv_putSess (ss : List Sess) (s : Sess) (hI : SessInv ss) (hh : s.pkt.data.head? = some [])
-    (hk : ∀ b ∈ s.withheld, dcidKey b = s.key) (hc : s.key ≠ []) : SessInv (putSess ss s) := by
+    (hk : ∀ b ∈ s.withheld, dcidKey b = s.key) : SessInv (putSess ss s) := by
   unfold putSess
-  refine ⟨?_, ?_, ?_, ?_⟩
+  refine ⟨?_, ?_, ?_⟩
   · intro t ht
     simp only [List.mem_cons, List.mem_filter] at ht
     rcases ht with rfl | ht
@@ -239,11 +233,6 @@ theorem sessInv_putSess (ss : List Sess) (s : Sess) (hI : SessInv ss) (hh : s.pk
     rcases ht with rfl | ht
     · exact hk
     · exact hI.keyed t ht.1
-  · intro t ht
-    simp only [List.mem_cons, List.mem_filter] at ht
-    rcases ht with rfl | ht
-    · exact hc
-    · exact hI.cacheable t ht.1
 
 /-- The conservation law of a forwarding step, per connection key. -/
 def Conserves (ss : List Sess) (x : Dg) (r : Fam × StepOut) : Prop :=
@@ -260,13 +249,13 @@ theorem forward_conserves (f : Fam) (x : Dg) (hs : Bool) (hI : SessInv f.session
 /-- Forwarding right after the current session `s'` was stored: `pre` (its datagrams before the
 current one) and what `s'` still holds are what the key's session held before. -/
 theorem forward_after_put (ss : List Sess) (u : Option Bytes) (fl : List Bytes) (s' : Sess) (pre : List Bytes) (dom : Bytes) (x : Dg)
-    (hI : SessInv ss) (hc : s'.key ≠ [])
+    (hI : SessInv ss)
     (hh : s'.pkt.data.head? = some []) (hk : ∀ b ∈ s'.withheld, dcidKey b = s'.key)
     (hpre : pre ++ s'.withheld = heldK ss s'.key) (hpk : ∀ b ∈ pre, dcidKey b = s'.key) :
     SessInv ((Fam.mk (putSess ss s') u fl).forward pre dom x true).1.sessions ∧
       AllEmpty ((Fam.mk (putSess ss s') u fl).forward pre dom x true).1.sessions ∧
       Conserves ss x ((Fam.mk (putSess ss s') u fl).forward pre dom x true) := by
-  have hI' : SessInv (Fam.mk (putSess ss s') u fl).sessions := sessInv_putSess ss s' hI hh hk hc
+  have hI' : SessInv (Fam.mk (putSess ss s') u fl).sessions := sessInv_putSess ss s' hI hh hk
   obtain ⟨hS, hE, hout, _⟩ := forward_spec (Fam.mk (putSess ss s') u fl) pre dom x true hI' (Or.inl rfl)
   refine ⟨hS, hE, ?_⟩
   intro k
@@ -324,8 +313,8 @@ theorem record_release (s : Sess) (dom : Bytes) :
   · split <;> exact ⟨rfl, rfl, rfl⟩
   · exact ⟨rfl, rfl, rfl⟩
 
-theorem sniff_spec (f : Fam) (x : Dg) (hI : SessInv f.sessions) (hue : f.ue = none)
-    (hk : dcidKey x.data ≠ []) : StepOk f.sessions x (f.sniff x) := by
+theorem sniff_spec (f : Fam) (x : Dg) (hI : SessInv f.sessions) (hue : f.ue = none) :
+    StepOk f.sessions x (f.sniff x) := by
   obtain ⟨h0k, h0h, h0keyed, h0w⟩ := sessionFor_spec f (dcidKey x.data) hI
   obtain ⟨h3k, h3d⟩ := sniffed_spec (f.sessionFor (dcidKey x.data)) x
   have hpre : (((f.sessionFor (dcidKey x.data)).sniffed x).2.pkt.data.drop 1).dropLast
@@ -340,14 +329,14 @@ theorem sniff_spec (f : Fam) (x : Dg) (hI : SessInv f.sessions) (hue : f.ue = no
   · split
     · -- bypass window
       obtain ⟨hS, hE, hC⟩ := forward_after_put f.sessions f.ue (markFailed f.failed (dcidKey x.data)) _ [] [] x hI
-        (by rw [h0k]; exact hk) h0h h0keyed (by rw [List.nil_append, h0w, h0k]) (fun b hb => nomatch hb)
+        h0h h0keyed (by rw [List.nil_append, h0w, h0k]) (fun b hb => nomatch hb)
       exact stepOk_of_forward _ _ _ hS hE hC
     · split
       · -- second decrypt failure in a row
         rw [hpre]
         obtain ⟨hS, hE, hC⟩ := forward_after_put f.sessions f.ue (markFailed f.failed (dcidKey x.data))
           ((f.sessionFor (dcidKey x.data)).sniffed x).2.release (f.sessionFor (dcidKey x.data)).withheld [] x hI
-          (by rw [release_key, h3k, h0k]; exact hk) rfl (fun b hb => nomatch hb)
+          rfl (fun b hb => nomatch hb)
           (by rw [release_withheld, List.append_nil, release_key, h3k, h0k, h0w])
           (by rw [release_key, h3k]; exact h0keyed)
         exact stepOk_of_forward _ _ _ hS hE hC
@@ -368,7 +357,7 @@ theorem sniff_spec (f : Fam) (x : Dg) (hI : SessInv f.sessions) (hue : f.ue = no
             · exact h0keyed b hb
             · simp only [List.mem_singleton] at hb
               rw [hb, h0k]
-          refine ⟨⟨sessInv_putSess _ _ hI hhead hkeyed (by rw [h3k, h0k]; exact hk), ?_⟩, ?_, ?_⟩
+          refine ⟨⟨sessInv_putSess _ _ hI hhead hkeyed, ?_⟩, ?_, ?_⟩
           · intro h; simp [hue] at h
           · intro k
             simp only [List.append_nil, onKey, List.filter_nil, List.nil_append]
@@ -386,7 +375,7 @@ theorem sniff_spec (f : Fam) (x : Dg) (hI : SessInv f.sessions) (hue : f.ue = no
           obtain ⟨hS, hE, hC⟩ := forward_after_put f.sessions f.ue f.failed
             ((((f.sessionFor (dcidKey x.data)).sniffed x).2.record (domainOf ((f.sessionFor (dcidKey x.data)).sniffed x).1)).release)
             (f.sessionFor (dcidKey x.data)).withheld (domainOf ((f.sessionFor (dcidKey x.data)).sniffed x).1) x hI
-            (by rw [rk, h3k, h0k]; exact hk) rh (by rw [rw_]; intro b hb; cases hb)
+            rh (by rw [rw_]; intro b hb; cases hb)
             (by rw [rw_, List.append_nil, rk, h3k, h0k, h0w])
             (by rw [rk, h3k]; exact h0keyed)
           exact stepOk_of_forward _ _ _ hS hE hC
@@ -407,7 +396,7 @@ theorem map_preserves (ss : List Sess) (g : Sess → Sess) (hg : ∀ s, (g s).ke
     (hI : SessInv ss) :
     SessInv (ss.map g) ∧ (∀ k, heldK (ss.map g) k = heldK ss k) ∧ (AllEmpty ss → AllEmpty (ss.map g)) := by
   have hw : ∀ s, (g s).withheld = s.withheld := fun s => by unfold Sess.withheld; rw [(hg s).2]
-  refine ⟨⟨?_, ?_, ?_, ?_⟩, ?_, ?_⟩
+  refine ⟨⟨?_, ?_, ?_⟩, ?_, ?_⟩
   · intro t ht
     rw [List.mem_map] at ht
     obtain ⟨s, hs, rfl⟩ := ht
@@ -419,10 +408,6 @@ theorem map_preserves (ss : List Sess) (g : Sess → Sess) (hg : ∀ s, (g s).ke
     rw [List.mem_map] at ht
     obtain ⟨s, hs, rfl⟩ := ht
     rw [hw s, (hg s).1]; exact hI.keyed s hs
-  · intro t ht
-    rw [List.mem_map] at ht
-    obtain ⟨s, hs, rfl⟩ := ht
-    rw [(hg s).1]; exact hI.cacheable s hs
   · intro k
     clear hI
     induction ss with
@@ -449,7 +434,7 @@ theorem observeFamily_spec (ss : List Sess) (key d : Bytes) (hI : SessInv ss) :
         intro s
         split <;> exact ⟨rfl, rfl⟩
 
-theorem ensure_spec (f : Fam) (d : Bytes) (hI : SessInv f.sessions) (hc : isLikelyQuic d = true → dcidKey d ≠ []) :
+theorem ensure_spec (f : Fam) (d : Bytes) (hI : SessInv f.sessions) :
     SessInv (f.ensure d).sessions ∧ (∀ k, heldK (f.ensure d).sessions k = heldK f.sessions k) ∧
       (AllEmpty f.sessions → AllEmpty (f.ensure d).sessions) ∧ (f.ensure d).ue = f.ue ∧
       ((isLikelyQuic d || !f.sessions.isEmpty) = true ∨ (f.ensure d).sessions = []) := by
@@ -464,7 +449,7 @@ theorem ensure_spec (f : Fam) (d : Bytes) (hI : SessInv f.sessions) (hc : isLike
       | none => rfl
       | some s => rw [hf] at hno; simp at hno
     have hfresh := findSess_none _ _ hnone
-    refine ⟨⟨?_, ?_, ?_, ?_⟩, fun k => heldK_append_empty _ _ rfl k, ?_, rfl, Or.inl (by simp [hq])⟩
+    refine ⟨⟨?_, ?_, ?_⟩, fun k => heldK_append_empty _ _ rfl k, ?_, rfl, Or.inl (by simp [hq])⟩
     · intro t ht
       simp only [List.mem_append, List.mem_singleton] at ht
       rcases ht with ht | rfl
@@ -483,11 +468,6 @@ theorem ensure_spec (f : Fam) (d : Bytes) (hI : SessInv f.sessions) (hc : isLike
       rcases ht with ht | rfl
       · exact hI.keyed t ht
       · intro b hb; cases hb
-    · intro t ht
-      simp only [List.mem_append, List.mem_singleton] at ht
-      rcases ht with ht | rfl
-      · exact hI.cacheable t ht
-      · exact hc hq
     · intro he t ht
       simp only [List.mem_append, List.mem_singleton] at ht
       rcases ht with ht | rfl
@@ -504,10 +484,13 @@ theorem stepOk_forward (f : Fam) (ss0 : List Sess) (x : Dg) (hs : Bool) (hI : Se
   obtain ⟨hS, hE, _, _⟩ := forward_spec f [] [] x hs hI hhs
   exact stepOk_congr _ _ _ _ hh (stepOk_of_forward _ _ _ hS hE (forward_conserves f x hs hI hhs []))
 
-theorem step_spec (f : Fam) (x : Dg) (hI : f.Inv) (hc : isLikelyQuic x.data = true → dcidKey x.data ≠ []) :
-    StepOk f.sessions x (f.step x) := by
+theorem sessInv_filter (ss : List Sess) (p : Sess → Bool) (hI : SessInv ss) : SessInv (ss.filter p) := by
+  refine ⟨fun s hs => hI.heads s (List.mem_filter.mp hs).1,
+    hI.nodup.sublist ((List.filter_sublist).map Sess.key), fun s hs => hI.keyed s (List.mem_filter.mp hs).1⟩
+
+theorem step_spec (f : Fam) (x : Dg) (hI : f.Inv) : StepOk f.sessions x (f.step x) := by
   obtain ⟨hS, hq⟩ := hI
-  obtain ⟨eS, eH, eE, eU, eHad⟩ := ensure_spec f x.data hS hc
+  obtain ⟨eS, eH, eE, eU, eHad⟩ := ensure_spec f x.data hS
   unfold Fam.step
   simp only []
   cases hue : (f.ensure x.data).ue with
@@ -528,16 +511,10 @@ theorem step_spec (f : Fam) (x : Dg) (hI : f.Inv) (hc : isLikelyQuic x.data = tr
         obtain ⟨oS, oH, oE⟩ := observeFamily_spec (f.ensure x.data).sessions (dcidKey x.data) x.data eS
         split
         · -- reset by another connection's Initial
-          rename_i hreset
-          have hnil : (observeFamily (f.ensure x.data).sessions (dcidKey x.data) x.data).1.filter (fun s => s.key == []) = [] := by
-            rw [List.filter_eq_nil_iff]
-            intro s hs
-            simp [oS.cacheable s hs]
-          rw [hnil]
-          have hnilInv : SessInv ([] : List Sess) := by
-            refine ⟨?_, List.nodup_nil, ?_, ?_⟩ <;> intro s hs <;> cases hs
-          have := sniff_spec (Fam.mk [] none (f.ensure x.data).failed) x hnilInv rfl hreset.1
-          exact stepOk_congr _ _ _ _ (fun k => by rw [heldK_of_allEmpty _ k hE0]; rfl) this
+          have hfE : AllEmpty ((observeFamily (f.ensure x.data).sessions (dcidKey x.data) x.data).1.filter (fun s => s.key == [])) :=
+            fun s hs => oE hE1 s (List.mem_filter.mp hs).1
+          have := sniff_spec (Fam.mk ((observeFamily (f.ensure x.data).sessions (dcidKey x.data) x.data).1.filter (fun s => s.key == [])) none (f.ensure x.data).failed) x (sessInv_filter _ _ oS) rfl
+          exact stepOk_congr _ _ _ _ (fun k => by rw [heldK_of_allEmpty _ k hE0, heldK_of_allEmpty _ k hfE]) this
         · exact stepOk_forward (Fam.mk _ _ _) f.sessions x _ oS
             (Or.inl (by simp [hinit]))
             (fun k => by rw [oH k, eH k])
@@ -546,12 +523,11 @@ theorem step_spec (f : Fam) (x : Dg) (hI : f.Inv) (hc : isLikelyQuic x.data = tr
     simp only []
     split
     · rename_i hq'
-      exact stepOk_congr _ _ _ _ eH (sniff_spec (f.ensure x.data) x eS hue (hc hq'))
+      exact stepOk_congr _ _ _ _ eH (sniff_spec (f.ensure x.data) x eS hue)
     · exact stepOk_forward _ f.sessions x _ eS eHad eH
 
 theorem inv_init : ({} : Fam).Inv := by
-  refine ⟨⟨?_, List.nodup_nil, ?_, ?_⟩, ?_⟩
-  · intro s hs; cases hs
+  refine ⟨⟨?_, List.nodup_nil, ?_⟩, ?_⟩
   · intro s hs; cases hs
   · intro s hs; cases hs
   · intro _ s hs; cases hs
@@ -559,24 +535,22 @@ theorem inv_init : ({} : Fam).Inv := by
 theorem released_cons (o : StepOut) (os : List StepOut) : released (o :: os) = (o.written ++ o.dropped) ++ released os := by
   simp [released]
 
-theorem run_spec (xs : List Dg) (f : Fam) (hI : f.Inv)
-    (hc : ∀ x ∈ xs, isLikelyQuic x.data = true → dcidKey x.data ≠ []) :
+theorem run_spec (xs : List Dg) (f : Fam) (hI : f.Inv) :
     (Fam.run f xs).2.Inv ∧ ∀ k, onKey k (released (Fam.run f xs).1) ++ heldK (Fam.run f xs).2.sessions k
       = heldK f.sessions k ++ onKey k (xs.map Dg.data) := by
   induction xs generalizing f with
   | nil => exact ⟨hI, fun k => by simp [Fam.run, released, onKey]⟩
   | cons x xs ih =>
-    obtain ⟨h1, h2, _⟩ := step_spec f x hI (hc x (by simp))
-    obtain ⟨i1, i2⟩ := ih (f.step x).1 h1 (fun y hy => hc y (by simp [hy]))
+    obtain ⟨h1, h2, _⟩ := step_spec f x hI
+    obtain ⟨i1, i2⟩ := ih (f.step x).1 h1
     simp only [Fam.run]
     refine ⟨i1, fun k => ?_⟩
     rw [released_cons, onKey_append, List.append_assoc, i2 k, ← List.append_assoc, h2 k]
     simp only [List.map_cons, List.append_assoc]
     rw [← onKey_append]; rfl
 
-theorem run_last_step (xs : List Dg) (x : Dg)
-    (hc : ∀ y ∈ xs ++ [x], isLikelyQuic y.data = true → dcidKey y.data ≠ []) :
+theorem run_last_step (xs : List Dg) (x : Dg) :
     StepOk (Fam.run {} xs).2.sessions x ((Fam.run {} xs).2.step x) :=
-  step_spec _ x (run_spec xs {} inv_init (fun y hy => hc y (by simp [hy]))).1 (hc x (by simp))
+  step_spec _ x (run_spec xs {} inv_init).1
 
 end DaeVerif.C06
